@@ -83,6 +83,87 @@ fn registry_for(meta: MetaType) -> (PortableRegistry, u32) {
     (PortableRegistry::from(reg), id)
 }
 
+/// One representative of every family at two fractional-bit counts (none, half the width), with the
+/// primitive each must bottom out in. A runtime publishes *one* registry for all its types, so a
+/// layout's metadata is never alone in it: the registry interns types by `TypeInfo::Identity`, and two
+/// types that claim the same identity share one entry (whichever came first).
+fn family_reps() -> Vec<(MetaType, &'static str)> {
+    use substrate_fixed::types::extra::{U0, U16, U32, U4, U64, U8};
+    use substrate_fixed::{FixedI128, FixedI16, FixedI32, FixedI64, FixedI8, FixedU128, FixedU16, FixedU32, FixedU64, FixedU8};
+    vec![
+        (MetaType::new::<FixedI8<U0>>(), "I8"),
+        (MetaType::new::<FixedI8<U4>>(), "I8"),
+        (MetaType::new::<FixedI16<U0>>(), "I16"),
+        (MetaType::new::<FixedI16<U8>>(), "I16"),
+        (MetaType::new::<FixedI32<U0>>(), "I32"),
+        (MetaType::new::<FixedI32<U16>>(), "I32"),
+        (MetaType::new::<FixedI64<U0>>(), "I64"),
+        (MetaType::new::<FixedI64<U32>>(), "I64"),
+        (MetaType::new::<FixedI128<U0>>(), "I128"),
+        (MetaType::new::<FixedI128<U64>>(), "I128"),
+        (MetaType::new::<FixedU8<U0>>(), "U8"),
+        (MetaType::new::<FixedU8<U4>>(), "U8"),
+        (MetaType::new::<FixedU16<U0>>(), "U16"),
+        (MetaType::new::<FixedU16<U8>>(), "U16"),
+        (MetaType::new::<FixedU32<U0>>(), "U32"),
+        (MetaType::new::<FixedU32<U16>>(), "U32"),
+        (MetaType::new::<FixedU64<U0>>(), "U64"),
+        (MetaType::new::<FixedU64<U32>>(), "U64"),
+        (MetaType::new::<FixedU128<U0>>(), "U128"),
+        (MetaType::new::<FixedU128<U64>>(), "U128"),
+        // and what else a runtime's registry holds: the primitives themselves
+        (MetaType::new::<i64>(), "I64"),
+        (MetaType::new::<u128>(), "U128"),
+    ]
+}
+
+/// A registry that already holds every family (registered in the order given by `rot`), then `meta`.
+fn shared_registry_for(meta: MetaType, meta_first: bool, rot: usize) -> (PortableRegistry, u32, Vec<(u32, &'static str)>) {
+    let reps = family_reps();
+    let mut reg = Registry::new();
+    let mut id = 0;
+    if meta_first {
+        id = reg.register_type(&meta).id;
+    }
+    let mut ids = Vec::new();
+    for k in 0..reps.len() {
+        let (m, want) = &reps[(k + rot) % reps.len()];
+        ids.push((reg.register_type(m).id, *want));
+    }
+    if !meta_first {
+        id = reg.register_type(&meta).id;
+    }
+    (PortableRegistry::from(reg), id, ids)
+}
+
+/// The registry the foreign reader works from: every family first (in an order that depends on the
+/// width, so that each family is sometimes the first of its kind), then the type it is asked to read.
+/// Building it costs far more than a decode and a history reads the same record under many faults, so
+/// the last few are kept per thread (keyed by the Rust type and shape, never by `Identity`).
+fn reader_registry_for(key: (std::any::TypeId, u8), meta: MetaType, rot: usize) -> std::rc::Rc<(PortableRegistry, u32)> {
+    use std::cell::RefCell;
+    use std::rc::Rc;
+    thread_local! {
+        static RECENT: RefCell<(usize, Vec<((std::any::TypeId, u8), Rc<(PortableRegistry, u32)>)>)> = RefCell::new((0, Vec::new()));
+    }
+    RECENT.with(|c| {
+        let mut c = c.borrow_mut();
+        if let Some((_, r)) = c.1.iter().find(|(k, _)| *k == key) {
+            return r.clone();
+        }
+        let (reg, id, _) = shared_registry_for(meta, false, rot);
+        let r = Rc::new((reg, id));
+        if c.1.len() < 24 {
+            c.1.push((key, r.clone()));
+        } else {
+            let at = c.0 % 24;
+            c.1[at] = (key, r.clone());
+            c.0 += 1;
+        }
+        r
+    })
+}
+
 /// Decode a record of `shape` over `T` using nothing but published metadata.
 pub fn decode_by_metadata<T: Lay>(shape: Shape, inp: &mut SimInput) -> Result<Vec<u128>, Error> {
     let meta = match shape {
@@ -97,9 +178,10 @@ pub fn decode_by_metadata<T: Lay>(shape: Shape, inp: &mut SimInput) -> Result<Ve
         Shape::Rec => MetaType::new::<crate::lay::Rec<T>>(),
         Shape::Sum => MetaType::new::<crate::lay::Sum<T>>(),
     };
-    let (reg, id) = registry_for(meta);
+    // the foreign reader sees the runtime's one registry, in which this type is not alone
+    let rid = reader_registry_for((std::any::TypeId::of::<T>(), shape as u8), meta, T::WB);
     let mut out = Vec::new();
-    walk(&reg, id, inp, &mut out, 0)?;
+    walk(&rid.0, rid.1, inp, &mut out, 0)?;
     if shape == Shape::Tup3 && out.len() == 3 {
         // same order as the codec reader reports: value, head, tail
         out.swap(0, 1);
@@ -151,12 +233,44 @@ fn kind_name(t: &TypeDef<PortableForm>) -> &'static str {
 /// M1: the published metadata describes exactly one plain integer of the family's
 /// own width and signedness (so a metadata-driven client reads the plain bits).
 pub fn check_metadata<T: Lay>() -> Result<(), String> {
+    // the verdict is a function of the type alone: evaluated once per layout and thread
+    use std::cell::RefCell;
+    use std::collections::BTreeMap;
+    thread_local! {
+        static SEEN: RefCell<BTreeMap<std::any::TypeId, Result<(), String>>> = RefCell::new(BTreeMap::new());
+    }
+    let key = std::any::TypeId::of::<T>();
+    if let Some(r) = SEEN.with(|s| s.borrow().get(&key).cloned()) {
+        return r;
+    }
+    let r = check_metadata_uncached::<T>();
+    SEEN.with(|s| s.borrow_mut().insert(key, r.clone()));
+    r
+}
+
+fn check_metadata_uncached<T: Lay>() -> Result<(), String> {
     let (reg, id) = registry_for(MetaType::new::<T>());
     let mut l = Vec::new();
     leaves(&reg, id, &mut l, 0)?;
     let want = format!("{}{}", if T::SIGNED { "I" } else { "U" }, T::W);
     if l.len() != 1 || l[0] != want {
         return Err(format!("metadata leaves {:?}, want exactly [{}]", l, want));
+    }
+    // the same in a registry shared with every other family, registered before and after this type
+    for (meta_first, rot) in [(false, 0usize), (true, 0), (false, 7)] {
+        let (reg, id, others) = shared_registry_for(MetaType::new::<T>(), meta_first, rot);
+        let mut l = Vec::new();
+        leaves(&reg, id, &mut l, 0)?;
+        if l.len() != 1 || l[0] != want {
+            return Err(format!("in a registry shared with the other families (registered {} this type) the metadata leaves {:?}, want exactly [{}]", if meta_first { "after" } else { "before" }, l, want));
+        }
+        for (oid, owant) in others {
+            let mut l = Vec::new();
+            leaves(&reg, oid, &mut l, 0)?;
+            if l.len() != 1 || l[0] != owant {
+                return Err(format!("registering this type {} the other families changes what a {} family member resolves to: leaves {:?}, want [{}]", if meta_first { "before" } else { "after" }, owant, l, owant));
+            }
+        }
     }
     Ok(())
 }
